@@ -670,7 +670,36 @@ class TotalWorld(OracleWorld):
         st.facts[("le", pos.name, ("len", tag))] = True
         return ip.some(pos)
 
+    def str_ends_with(self, m, st, s, pat):
+        """s.ends_with(c) for a character c: when it holds, s has at least len_utf8(c) bytes and
+        len - len_utf8(c) is the char boundary where that last character starts."""
+        if not isinstance(s, Str):
+            return None  # (a buffer under construction: its length is not a fact about a fixed string)
+        tag = s.tag
+        n = None
+        if isinstance(pat, I) and pat.ty == "char":
+            n = _utf8_len(pat.v)
+        elif isinstance(pat, Sym) and pat.ty == "char":
+            r = rng_get(st, pat)
+            if _utf8_len(r[0][0]) == _utf8_len(r[-1][1]):
+                n = _utf8_len(r[0][0])
+        if n is None:
+            return None
+        if not self.decide(st, "ends_with", [True, False]):
+            return ip.boolean(False)
+        ln = Sym(("len", tag), "usize")
+        r = rng_get(st, ln)
+        _lt, ge = ip._rng_split(r, "Lt", n)
+        if ge:
+            st.facts[("rng", ln.name)] = tuple(ge)
+        st.facts[("last-char-len", tag)] = n
+        return ip.boolean(True)
+
     def bound_ok(self, st, b, tag):
+        if isinstance(b, Sym):
+            bs, k = lin_parts(b)
+            if bs == ("len", tag) and k < 0 and st.facts.get(("last-char-len", tag)) == -k:
+                return True, ("byteoff", tag)
         p = self.provenance(b)
         if p == ("const0",):
             return True, p
